@@ -5,5 +5,7 @@ CONSTANTS
   SearchArg = "index_plus_1"
   Side = "left"
   Subtract = "prev"
+  CacheCum = "none"
+  MazesBuild = "atomic"
 INVARIANT Done
 CHECK_DEADLOCK FALSE
